@@ -108,7 +108,7 @@ func (c11) Gen(tier string, seed int64, emit0 func([]Ev)) {
 						dl = 1
 					}
 					b := c11Pes(r, sid, pd, ex, dl, c11Time(r), c11Time(r))
-					emit([]Ev{{"op": "pes", "bytes": B(b)}})
+					emit([]Ev{{"op": "pes", "bytes": B(b), "lenient": false}})
 				}
 			}
 		}
@@ -192,6 +192,20 @@ func (c11) Gen(tier string, seed int64, emit0 func([]Ev)) {
 				emit(h)
 			}
 		}
+	}
+}
+
+// GenRows: byte strings kept by the coverage-guided fuzzer (FuzzC11); judged when Pes!WellFormed accepts them.
+func (c11) GenRows(rows []Ev, tier string, seed int64, emit func([]Ev)) {
+	for _, row := range rows {
+		in := GB(row["in"])
+		if len(in) > 400 {
+			in = in[:400]
+		}
+		if in == nil {
+			in = []byte{}
+		}
+		emit([]Ev{{"op": "pes", "bytes": B(in), "lenient": true}})
 	}
 }
 
